@@ -127,7 +127,7 @@ def random_specs(rng, n):
                     ok = False
                 seen[key] = v
         if ok and max_spelling_len(spec) <= 11:
-            out.append(spec)
+            out.append(decorate(rng, spec))
     return out
 
 
